@@ -29,8 +29,8 @@ from concurrent.futures import ThreadPoolExecutor
 VERIF = os.path.dirname(os.path.dirname(os.path.abspath(__file__)))
 REPO = os.environ.get("VERIF_REPO", "/repo")
 HARNESS_DIR = os.path.join(VERIF, "harness")
-EVIDENCE_DIR = os.path.join(VERIF, "evidence")
-REPLAY_DIR = os.path.join(VERIF, "replay")
+EVIDENCE_DIR = os.environ.get("VERIF_EVIDENCE_DIR") or os.path.join(VERIF, "evidence")
+REPLAY_DIR = os.path.join(VERIF, "replay") if not os.environ.get("VERIF_EVIDENCE_DIR") else os.path.join(os.environ["VERIF_EVIDENCE_DIR"], "replay")
 KNOWN = os.path.join(VERIF, "known_findings.txt")
 NCPU = os.cpu_count() or 4
 
@@ -412,7 +412,7 @@ def select(files, prop, tier, seed):
         return quick + rot + thorough
     extra = []
     if rot:
-        k = max(1, len(rot) // 4)
+        k = min(24, max(1, len(rot) // 4))
         start = (seed * k) % len(rot)
         extra = [rot[(start + i) % len(rot)] for i in range(k)]
     return quick + extra
